@@ -18,6 +18,7 @@ zip(messages, serializers) is exactly the written pairs, tracebackMessages consi
 validate()/serialize()/flush_tracebacks() return value is the one a serial run gives.
 """
 import json
+import os
 import re
 
 from lib.framework import Family
@@ -918,3 +919,66 @@ FAMILIES = [
            lambda case, obs: json.dumps(case) if isinstance(obs, dict) and obs.get("lines") else None,
            shard=1, case_timeout=300, describe=lambda c: "supplementary-stress-not-a-proof"),
 ]
+
+
+# ---- the same typed message kind written by two threads through the real Logger (serialization happens outside any lock) ----
+from props import C13 as _c13
+
+FAMILIES.append(Family("shared_type", _c13.gen_shared, _c13.impl_shared, None, None, _c13.oracle_shared,
+                       lambda case, obs: json.dumps(case), shard=30, case_timeout=30))
+
+
+# ---- the very first tracebacks of a process, logged by several threads at once (fresh interpreter per case) ----
+_FIRST_TB = r'''
+import sys, threading, json
+from eliot import MemoryLogger, write_traceback
+N = int(sys.argv[1])
+logger = MemoryLogger()
+barrier = threading.Barrier(N)
+errors = []
+def work(i):
+    barrier.wait()
+    try:
+        raise ValueError("boom%d" % i)
+    except ValueError:
+        try:
+            write_traceback(logger)
+        except BaseException as e:
+            errors.append("%s: %s" % (type(e).__name__, e))
+ts = [threading.Thread(target=work, args=(i,)) for i in range(N)]
+[t.start() for t in ts]
+[t.join(30) for t in ts]
+reasons = sorted(str(m.get("reason")) for m in logger.messages)
+print(json.dumps({"errors": errors, "n_messages": len(logger.messages), "n_tb": len(logger.tracebackMessages),
+                  "n_ser": len(logger.serializers), "reasons": reasons}))
+'''
+
+
+def gen_first_tb(rng, tier):
+    return [{"threads": n} for n in ([2, 8, 16] if tier == "quick" else [2, 2, 3, 4, 8, 8, 16, 16, 32, 32])]
+
+
+def impl_first_tb(case):
+    import subprocess, sys
+    p = subprocess.run([sys.executable, "-c", _FIRST_TB, str(case["threads"])], stdout=subprocess.PIPE, stderr=subprocess.PIPE,
+                       universal_newlines=True, timeout=60, env=dict(os.environ))
+    try:
+        return json.loads(p.stdout.strip().splitlines()[-1])
+    except Exception:
+        return {"errors": ["child failed: " + (p.stderr or p.stdout)[-300:]], "n_messages": -1, "n_tb": -1, "n_ser": -1, "reasons": []}
+
+
+def oracle_first_tb(case, obs):
+    n = case["threads"]
+    if obs["errors"]:
+        return "write_traceback raised in %d of %d threads logging the process's first tracebacks: %s" % (len(obs["errors"]), n, obs["errors"][0])
+    if not (obs["n_messages"] == obs["n_tb"] == obs["n_ser"] == n):
+        return "%d threads each logged one traceback; recorded messages=%d tracebackMessages=%d serializers=%d" % (
+            n, obs["n_messages"], obs["n_tb"], obs["n_ser"])
+    if obs["reasons"] != sorted("boom%d" % i for i in range(n)):
+        return "recorded tracebacks %r" % obs["reasons"]
+    return None
+
+
+FAMILIES.append(Family("first_tracebacks", gen_first_tb, impl_first_tb, None, None, oracle_first_tb,
+                       lambda case, obs: json.dumps(case), shard=1, case_timeout=90))
